@@ -144,7 +144,7 @@ package core
 //@       skippedAll(a, (*directive.Directive)(c).Parent, d.type_)))
 //@   modifies core.currentContextDirective, *root, allfield(directive.Directive, Parent), allfield(directive.Directive, Children), allelems(*directive.Directive)
 //@   ensures imp(result == nil, core.currentContextDirective == d)
-//@   ensures[C11,@context-resolution] exists(w, skippedAll(old(core.currentContextDirective), w, d.type_)
+//@   ensures[C11,C05,C10,@context-resolution] exists(w, skippedAll(old(core.currentContextDirective), w, d.type_)
 //@       && ctxStop(core, d, (*directive.Directive)(w), d.Parent, result == nil && d.Parent == nil, result != nil))
 //@   ensures[C11,C03,C07,@context-error-at] imp(result != nil, result.File == d.keywordCoords.file && result.Index == d.keywordCoords.begin
 //@       && d.Parent == nil)
